@@ -444,7 +444,12 @@ def side_effect_shard(desc):
                 sh.failures.append(core.Failure(key, f"after make_vectorizable({name}) the module attribute {f.__module__}.{f.__name__} is a different object",
                                                 {"kind": "side", "date": desc["date"], "seed": desc["seed"], "n_pop": desc["n_pop"]}))
         sh.nontrivial.add(f"3|rebind|{name}")
-    after = [compare.frame_digest(env.simulate(p.df, env=env.fresh_env(date), targets=nodes)) for p in pops]
+    after = []
+    for p in pops:
+        try:
+            after.append(compare.frame_digest(env.simulate(p.df, env=env.fresh_env(date), targets=nodes)))
+        except Exception as e:  # noqa: BLE001
+            after.append(f"EXC:{type(e).__name__}")
     for i, (b, a) in enumerate(zip(before, after)):
         sh.evaluations += 1
         sh.nontrivial.add(f"3|sim|{desc['date']}|{i}")
